@@ -3,7 +3,7 @@
    (GeophiresXResult of geophires_x_client/geophires_x_result.py); set.pop() is modelled as an arbitrary
    choice [k] among the distinct matching lines. *)
 From Coq Require Import String Ascii List ZArith QArith Qabs Bool PeanoNat.
-From Verif Require Import Base.Flat Model.ResultParser Proofs.ResultParserProofs Proofs.ResultParserTableProofs
+From Verif Require Import Base.Flat Model.ResultParser Proofs.ResultParserProofs Proofs.ResultParserProofs2 Proofs.ResultParserTableProofs
      Gen.C10Fields Gen.C10Labels.
 Import ListNotations.
 Open Scope string_scope.
@@ -185,6 +185,81 @@ Theorem C10_profile_rows :
 Proof. exact data_rows_rendered. Qed.
 Print Assumptions C10_profile_rows.
 
+(* ---- round 2 ------------------------------------------------------------------------------------------------
+   _get_profile_lines: for every text  pre ++ banner ++ body ++ blank line ++ post  in which the banner first
+   occurs after pre, does not occur again, and body has no empty line: the profile lines are exactly the lines of
+   body (so the table ends at the first empty line and nothing of pre / post leaks in); no banner -> IndexError *)
+Theorem C10_profile_lines :
+  forall name pre body post,
+  let banner := "*  " ++ name ++ "  *" in
+  first_at banner pre (body ++ NL ++ NL ++ post) ->
+  contains banner (body ++ NL ++ NL ++ post) = false ->
+  first_at (NL ++ NL) body post ->
+  get_profile_lines name (pre ++ banner ++ body ++ NL ++ NL ++ post) = Some (split_char NLc body).
+Proof. exact profile_lines_found. Qed.
+Print Assumptions C10_profile_lines.
+
+Theorem C10_profile_lines_of_block :
+  forall rest l, Forall (fun x => all_chars (fun c => negb (Ascii.eqb c NLc)) x = true) (l :: rest) ->
+  split_char NLc (join_lines l rest) = l :: rest.
+Proof. exact split_char_join. Qed.
+Print Assumptions C10_profile_lines_of_block.
+
+Theorem C10_profile_absent :
+  forall name text, contains ("*  " ++ name ++ "  *") text = false -> get_profile_lines name text = None.
+Proof. exact profile_lines_absent. Qed.
+Print Assumptions C10_profile_absent.
+
+(* header reconstruction of the production profiles: for every three (or more, or fewer) heading lines, whenever
+   the reconstruction succeeds it yields exactly one title per word group of the FIRST heading line - the other
+   lines only extend titles, they never add or drop a column *)
+Theorem C10_header_count :
+  forall h1 rest hs,
+  header_lines 0 (h1 :: rest) [] = Some hs -> List.length hs = List.length (tl (resplit2 h1)).
+Proof. exact header_count. Qed.
+Print Assumptions C10_header_count.
+
+(* the carbon revenue view: for every revenue table (any number of rows, any widths), when the view exists it is
+   exactly the listed columns of every row, rows in order, and some carbon price is non-zero; when all carbon
+   prices are zero there is no view *)
+Theorem C10_carbon_view :
+  forall cpi idx rows r,
+  carbon_view cpi idx rows = Some (Some r) ->
+  r = map (fun row => map (fun i => nth i row MNone) idx) rows /\ List.length r = List.length rows
+  /\ existsb (fun row => mval_nonzero (nth cpi row MNone)) rows = true.
+Proof. exact carbon_view_spec. Qed.
+Print Assumptions C10_carbon_view.
+
+Theorem C10_carbon_view_absent :
+  forall cpi idx rows,
+  (forall row, In row rows -> (cpi < List.length row)%nat) ->
+  existsb (fun row => mval_nonzero (nth cpi row MNone)) rows = false ->
+  carbon_view cpi idx rows = Some None.
+Proof. exact carbon_view_absent. Qed.
+Print Assumptions C10_carbon_view_absent.
+
+(* _parse_number against the writers' fixed-point formats ({:w.pf}, {:,.pf}, {:w.0f}): for EVERY sign, every
+   non-empty first digit group, every further ','-separated groups (thousands separators, any grouping) and every
+   list of p decimals: the parsed figure is the integer (p = 0) resp. the decimal mantissa * 10^-p it spells *)
+Theorem C10_number_integer :
+  forall neg g gs, all_digits g = true -> forallb all_digits gs = true -> g <> [] ->
+  parse_number (render_number neg g gs []) = MInt (sign_of neg * digits_val 0 (g ++ concat gs)).
+Proof. exact parse_integer. Qed.
+Print Assumptions C10_number_integer.
+
+Theorem C10_number_decimal :
+  forall neg g gs, all_digits g = true -> forallb all_digits gs = true -> g <> [] ->
+  forall f fs, all_digits (f :: fs) = true ->
+  parse_number (render_number neg g gs (f :: fs))
+  = MFlt (sign_of neg * (digits_val 0 (g ++ concat gs) * 10 ^ Z.of_nat (List.length (f :: fs)) + digits_val 0 (f :: fs)))
+         (- Z.of_nat (List.length (f :: fs))).
+Proof. exact parse_decimal. Qed.
+Print Assumptions C10_number_decimal.
+
+Theorem C10_number_na : parse_number "N/A" = MNone.
+Proof. exact parse_na. Qed.
+Print Assumptions C10_number_na.
+
 (* ---- non-vacuity: concrete instances satisfying the hypotheses ---------------------------------------------- *)
 Example C10_ex_roundtrip :
   field_of_line "Well depth" false (render_scalar 6 "Well depth" 1 "-12,345,678.9" (Some "kilometer") NL)
@@ -252,4 +327,26 @@ Example C10_ex_tables_nonempty :
 Proof. split; vm_compute; reflexivity. Qed.
 
 Example C10_ex_json : rounds_to (2159876 # 100000) 2160 (-2) = true.
+Proof. vm_compute. reflexivity. Qed.
+
+Example C10_ex_number :
+  render_number true [1%nat; 2%nat] [[3%nat; 4%nat; 5%nat]; [6%nat; 7%nat; 8%nat]] [9%nat; 0%nat] = "-12,345,678.90"
+  /\ parse_number "-12,345,678.90" = MFlt (-1234567890) (-2)
+  /\ parse_number (render_number false [4%nat; 2%nat] [] []) = MInt 42.
+Proof. repeat split; vm_compute; reflexivity. Qed.
+
+Example C10_ex_profile_lines :
+  get_profile_lines "T" ("x" ++ NL ++ "*  T  *" ++ (NL ++ "***" ++ NL ++ "  1  2.0") ++ NL ++ NL ++ "rest")
+  = Some [""; "***"; "  1  2.0"].
+Proof. vm_compute. reflexivity. Qed.
+
+Example C10_ex_header_count :
+  header_lines 0 ["  YEAR       THERMAL               GEOFLUID"; "             DRAWDOWN             TEMPERATURE";
+                  "                                   (deg C)"] []
+  = Some ["YEAR"; "THERMAL DRAWDOWN"; "GEOFLUID TEMPERATURE (deg C)"].
+Proof. vm_compute. reflexivity. Qed.
+
+Example C10_ex_carbon_view :
+  carbon_view 1 [0%nat; 1%nat] [[MInt 1; MFlt 1 (-2); MInt 7]; [MInt 2; MFlt 0 (-2); MInt 8]]
+  = Some (Some [[MInt 1; MFlt 1 (-2)]; [MInt 2; MFlt 0 (-2)]]).
 Proof. vm_compute. reflexivity. Qed.
